@@ -346,6 +346,19 @@ def run_unary(spec, tier, seed, res, P, methods, attrs, funcs):
         v, scale = _vec(r, system, mom)
         a, b, c = (float(gen.dyadic(r, 0.2, 2.5)) for _ in range(3))
         P.run("scalar-argument-methods", cell, src, (v, a, b, c), scale * 8, unpack=labels)
+    # predicates whose default tolerances differ (0 for is_timelike/is_spacelike, 1e-5 for is_lightlike): operands whose
+    # invariant mass squared lies between those defaults (|tau2| ~ 1e-7) distinguish them
+    preds = [n for n in ("is_timelike", "is_spacelike", "is_lightlike") if M(n)]
+    if preds and dim == 4:
+        plines = []
+        for n in preds:
+            plines += [f"v.{n}()", f"v.{n}(0)", f"v.{n}(0.0)", f"v.{n}(1e-5)", f"v.{n}(1e-9)", f"v.{n}(tolerance=1e-7)"]
+        psrc = "def probe(v):\n    return (" + ", ".join(plines) + ",)\n"
+        for causal in ("timelike", "spacelike"):
+            big, sc = _vec(r, system, mom, causal=causal, forward=True)
+            small = big.scale(1e-4 / max(1.0, sc / 10))
+            P.run(f"predicates[small {causal}]", cell, psrc, (small,), 1.0, unpack=plines)
+            P.run(f"predicates[{causal}]", cell, psrc, (big,), 1.0, unpack=plines)
     # transforms with typed dictionaries
     for n, comps in (("transform2D", "xy"), ("transform3D", "xyz"), ("transform4D", "xyzt")):
         if M(n):
